@@ -55,7 +55,7 @@ Analysis(arr) ==
         coincide == \E a, b \in groups : a # b /\ gspan[a] = gspan[b]
         big == \E c \in ncomps : arr.circ /\ 2 * ShortestCoverLen(RA(arr), FootprintOfAll(RA(arr), {arr.protos[i].extent : i \in UNION c})) >= arr.L
     IN  [hyb |-> hyb, inter |-> inter, neigh |-> neigh, groups |-> groups, singles |-> singles,
-         loose |-> coincide \/ big]
+         loose |-> coincide]
 BigGroup(arr, G) == arr.circ /\ 2 * ShortestCoverLen(RA(arr), FootprintOfAll(RA(arr), {arr.protos[i].extent : i \in G})) >= arr.L
 
 SeqSet(s) == {s[i] : i \in DOMAIN s}
@@ -69,9 +69,14 @@ CandFailed(arr, out) ==
         \cup (IF \E i, j \in DOMAIN out : i # j /\ SeqSet(out[i].members) = SeqSet(out[j].members)
                                            /\ Bases(out[i].loc) = Bases(out[j].loc)
               THEN {"no_two_candidates_same_coordinates_and_members"} ELSE {})
-        \cup (IF \E i \in DOMAIN out : ~BigGroup(arr, SeqSet(out[i].members)) /\
+        \cup (IF \E i \in DOMAIN out :
                     ConnectClause(RA(arr), {arr.protos[m].extent : m \in SeqSet(out[i].members)}, out[i].loc) # "ok"
               THEN {"location_is_span_of_members"} ELSE {})
+        (* the members of a candidate overlap in a chain (of whatever kind), the bases they occupy are one stretch of the
+           record and the candidate occupies exactly that stretch, however long (cf. RecordSM!RegionSpanFailed) *)
+        \cup (IF \E i \in DOMAIN out : WellFormed(RA(arr), out[i].loc) /\
+                    Bases(out[i].loc) # FootprintOfAll(RA(arr), {arr.protos[m].extent : m \in SeqSet(out[i].members)})
+              THEN {"location_covers_exactly_its_members"} ELSE {})
         \cup (IF \E c \in seen : c.kind = "single" /\ Cardinality(c.members) # 1 THEN {"single_has_one_member"} ELSE {})
         \cup (IF an.loose THEN {}
               ELSE (IF OfKind(seen, "chemical_hybrid") # OfKind(an.groups, "chemical_hybrid") THEN {"hybrids_as_documented"} ELSE {})
